@@ -225,7 +225,7 @@ func dustPredicate(pre, post *sc.Obs, deficit *big.Int) (bool, string) {
 
 type runStats struct {
 	periodEnds, stakingOK, stakingFailed, evm, matured, penalties, refunds, inactivity, forced, evAccepted, injected int
-	blocks, depositFailed                                                                                          int
+	probeCalls, factoryCalls, blocks, depositFailed                                                                                          int
 	halted                                                                                                         bool
 }
 
@@ -301,6 +301,14 @@ func runCase(c Case) kit.Result {
 				}
 			} else {
 				rs.evm++
+				if m.Kind == "call" && r.Status == types.ReceiptStatusSuccessful {
+					switch m.CKind {
+					case sc.KindProbe, sc.KindProbeNoStore:
+						rs.probeCalls++
+					case sc.KindFactory:
+						rs.factoryCalls++
+					}
+				}
 			}
 		}
 		if fees.Cmp(hdr.GasRewards) != 0 {
@@ -446,6 +454,8 @@ func runCase(c Case) kit.Result {
 	flag(rs.depositFailed > 0, "refund-path:deposit")
 	flag(rs.forced > 0, "settlement-at-period-end")
 	flag(rs.evm > 0, "evm-tx")
+	flag(rs.probeCalls > 0, "evm:address-probe-call")
+	flag(rs.factoryCalls > 0, "evm:create-by-contract")
 	flag(rs.stakingOK >= 5, "staking-ok>=5")
 	flag(rs.injected > 0, "excluded:"+classStale)
 	for l := range w.Excluded {
